@@ -113,6 +113,32 @@ def check_grid(case, R):
             R.ok("sim_end-idempotent")
         if abs(s.sim_dt - dt) > 0 or abs(s.sim_start - start) > 0:
             R.bad("settings-echo", "C03:settings-changed-start-or-dt", wit)
+        # the same grid must result when an existing settings object (on some other grid) is updated in one call, with all three
+        # or only some of the arguments: the requested end is aligned to the *new* grid only
+        for prev in ((2000.0, 2035.0, 1.0), (1990.0, 2020.3, 0.25), (start, end + 3.7, 0.3)):
+            for form in ("start+end+dt", "end+dt", "end then dt", "dt then end"):
+                s3 = at.ProjectSettings(sim_start=prev[0] if form == "start+end+dt" else start, sim_end=prev[1], sim_dt=prev[2])
+                try:
+                    if form == "start+end+dt":
+                        s3.update_time_vector(start=start, end=end, dt=dt)
+                    elif form == "end+dt":
+                        s3.update_time_vector(end=end, dt=dt)
+                    elif form == "end then dt":
+                        s3.update_time_vector(end=end)
+                        s3.update_time_vector(dt=dt)
+                        s3.update_time_vector(end=end)  # the end has to be requested again: the first call aligned it to the old grid
+                    else:
+                        s3.update_time_vector(dt=dt)
+                        s3.update_time_vector(end=end)
+                except Exception as e:
+                    R.bad("update_time_vector=fresh-settings", "C03:update_time_vector-raises[%s]" % type(e).__name__, {"form": form, "previous": prev, "start": start, "end": end, "dt": dt, "error": str(e)[:200]})
+                    continue
+                tv3 = np.array(s3.tvec, dtype=float)
+                R.count("update_time_vector_forms_checked")
+                if len(tv3) != len(exp) or np.any(np.abs(tv3 - exp) > 1e-9):
+                    R.bad("update_time_vector=fresh-settings", "C03:update_time_vector-grid-differs-from-fresh-settings[%s,%s]" % (form, regime), {"form": form, "previous": prev, "start": start, "end": end, "dt": dt, "points": int(len(tv3)), "expected_points": int(len(exp)), "last": tv3[-2:].tolist(), "expected_last": exp[-2:].tolist()})
+                else:
+                    R.ok("update_time_vector=fresh-settings")
         # changing dt afterwards re-aligns the end
         s2 = at.ProjectSettings(sim_start=start, sim_end=end, sim_dt=1.0)
         s2.sim_dt = dt
